@@ -16,7 +16,8 @@ RULE = ("synthetic: PSD matrices built by construction from a latent factor mode
         "leaks through discarded modes, direct optimality J(R+Delta) - J(R) = tr(Delta C Delta^T) >= 0 for drawn "
         "perturbations, selector matrix for duplicates. Non-trivial = n_off > n_on, or rank-deficient, or rc > 0, or "
         "end-to-end. Distinct = canonical JSON."
-        " Also: svd_conditioning above 1 (nothing retained: R == 0).")
+        " Also: svd_conditioning above 1 (nothing retained: R == 0)."
+        " Covariances in non-native byte order.")
 ASSUMPTIONS = ["retained subspace = eigenvectors of C_off,off with eigenvalue > rc*sigma_max (numpy.linalg.pinv's documented rule); cases are constructed with a spectral gap so membership is unambiguous",
                "rank-deficient C_off,off is only combined with rc > 0 (the statement promises the rc = 0 equality for well-conditioned matrices)",
                "tolerances scale with dtype eps and the retained condition number"]
